@@ -9,7 +9,7 @@ WT=/tmp/wt-verify-$$
 git -C /repo worktree add -q --detach $WT HEAD || exit 2
 trap 'git -C /repo worktree remove --force $WT >/dev/null 2>&1' EXIT
 cd $WT
-cp $D/demo_test.go $WT/$DEMO_PATH
+mkdir -p $(dirname $WT/$DEMO_PATH); cp $D/demo_test.go $WT/$DEMO_PATH
 PKG=./$(dirname $DEMO_PATH)
 echo "== demo WITHOUT the change"
 timeout 900 go test -vet=off -count=1 $SHORT -run "$RUN" $PKG > /tmp/sv-$$-a.log 2>&1; A=$?
